@@ -157,10 +157,10 @@ def trotx(theta, unit="rad", t=None):
     :seealso: :func:`~rotx`
     :SymPy: supported
     """
-    T = base.r2t(rotx(theta, unit))
-    if t is not None:
-        T[:3, 3] = base.getvector(t, 3, 'array')
-    return T
+    if t is None:
+        return base.r2t(rotx(theta, unit))
+    else:
+        return base.rt2tr(rotx(theta, unit), base.getvector(t, 3, 'array'))
 
 
 # ---------------------------------------------------------------------------------------#
@@ -191,10 +191,10 @@ def troty(theta, unit="rad", t=None):
     :seealso: :func:`~roty`
     :SymPy: supported
     """
-    T = base.r2t(roty(theta, unit))
-    if t is not None:
-        T[:3, 3] = base.getvector(t, 3, 'array')
-    return T
+    if t is None:
+        return base.r2t(roty(theta, unit))
+    else:
+        return base.rt2tr(roty(theta, unit), base.getvector(t, 3, 'array'))
 
 
 # ---------------------------------------------------------------------------------------#
@@ -225,10 +225,10 @@ def trotz(theta, unit="rad", t=None):
     :seealso: :func:`~rotz`
     :SymPy: supported
     """
-    T = base.r2t(rotz(theta, unit))
-    if t is not None:
-        T[:3, 3] = base.getvector(t, 3, 'array')
-    return T
+    if t is None:
+        return base.r2t(rotz(theta, unit))
+    else:
+        return base.rt2tr(rotz(theta, unit), base.getvector(t, 3, 'array'))
 
 # ---------------------------------------------------------------------------------------#
 
